@@ -171,14 +171,32 @@ func evaluate(r *run, stuck []*opCtx) []finding {
 			}
 		}
 	}
-	// NoneOpenAfterShutdown
+	// NoneOpenAfterShutdown. The exception the code makes on purpose: cache Close gives up (at its
+	// deadline) on an entry another closer holds; if that closer's TryClose then says "no" the
+	// instance stays - so an instance that was open when Close gave up on its id is exempt.
+	gaveUp := map[string]int{} // id -> seq of the first give-up
+	for _, e := range events {
+		if e.Point == "setclosing.ctx" && kindOf(e.Op) == "Close" {
+			if _, ok := gaveUp[e.Id]; !ok {
+				gaveUp[e.Id] = e.Seq
+			}
+		}
+	}
+	exempt := map[int]bool{}
+	for _, n := range nums {
+		// given up while it was open (i.e. in the hands of another closer: Close only waits in
+		// setClosing for an entry somebody else is closing)
+		if s, ok := gaveUp[lv[n].id]; ok && lv[n].start < s && s < lv[n].end {
+			exempt[n] = true
+		}
+	}
 	for _, op := range r.ops {
 		if op.kind != "Close" || op.res != "ok" || op.retSeq == 0 {
 			continue
 		}
 		for _, n := range nums {
 			l := lv[n]
-			if l.end > op.retSeq && (l.start < op.retSeq || len(stuck) == 0) {
+			if l.end > op.retSeq && (l.start < op.retSeq || len(stuck) == 0) && !exempt[n] {
 				when := "was still open when Close returned"
 				if l.start > op.retSeq {
 					when = "was put into the cache after Close had returned and is never closed"
